@@ -329,6 +329,16 @@ fn provided_cases(max_n: usize) {
                 break;
             }
         }
+        if bomb < 0 {
+            // nothing panics: every element is handed out or released, exactly once
+            let mut all: Vec<i64> = sorted.clone();
+            all.extend(&handed);
+            all.sort();
+            let want: Vec<i64> = (0..n as i64).collect();
+            if all != want {
+                emit_oracle(&format!("provided method {} (N = {}, no panic, argument {}): released {:?} + handed out {:?} is not every element exactly once", m, n, arg, sorted, handed));
+            }
+        }
         for h in &handed {
             if drops.contains(h) {
                 emit_oracle(&format!("provided method {} (N = {}, destructor of {} panics, argument {}): element {} was handed out and released by the crate", m, n, bomb, arg, h));
